@@ -28,13 +28,24 @@ TAG_MAP.update(
      univ.Real.tagSet: RealPayloadDecoder()}
 )
 
+# character and useful string types are octet strings on the wire:
+# no constructed form in DER either
+for tagSet, typeDecoder in list(TAG_MAP.items()):
+    if (isinstance(typeDecoder, decoder.OctetStringPayloadDecoder) and
+            typeDecoder.supportConstructedForm):
+        TAG_MAP[tagSet] = type(
+            typeDecoder.__class__.__name__, (typeDecoder.__class__,),
+            dict(supportConstructedForm=False))()
+
 TYPE_MAP = decoder.TYPE_MAP.copy()
 
-# Put in non-ambiguous types for faster codec lookup
+# Put in non-ambiguous types for faster codec lookup. The map copied from
+# the wider codec already has these entries: replace them, or decoding
+# guided by a schema would use the wider codec's value decoders
 for typeDecoder in TAG_MAP.values():
     if typeDecoder.protoComponent is not None:
         typeId = typeDecoder.protoComponent.__class__.typeId
-        if typeId is not None and typeId not in TYPE_MAP:
+        if typeId is not None:
             TYPE_MAP[typeId] = typeDecoder
 
 
